@@ -8,7 +8,8 @@ sys.path.insert(0, os.path.dirname(os.path.abspath(__file__)))
 import exttie
 V = os.path.dirname(os.path.dirname(os.path.abspath(__file__)))
 P = os.path.join(V, "pinned_src")
-for crate, files in (("rand_xoshiro", None), ("rand_xorshift", ["lib.rs"]), ("rand_jitter", ["lib.rs"]), ("rand_hc", ["hc128.rs"])):
+for crate, files in (("rand_xoshiro", None), ("rand_xorshift", ["lib.rs"]), ("rand_jitter", ["lib.rs"]), ("rand_hc", ["hc128.rs"]),
+                     ("rand_isaac", ["isaac.rs", "isaac64.rs", "isaac_array.rs"])):
     src = os.path.join("/repo", crate, "src")
     dst = os.path.join(P, crate, "src")
     os.makedirs(dst, exist_ok=True)
@@ -21,6 +22,15 @@ for f in glob.glob("/repo/rand_*/src/*.rs"):
     dst = os.path.join(P, os.path.relpath(f, "/repo"))
     os.makedirs(os.path.dirname(dst), exist_ok=True)
     shutil.copy(f, dst)
+# the bridge lemmas that restate the pinned translation of the block generators (rand_hc, rand_isaac) — regenerated from
+# exactly these sources and compiled by lake before the theorems are checked
+import subprocess
+import gen_exttie_shapes
+gen_exttie_shapes.main(P)
+b = subprocess.run(["lake", "build", "Rngs.Lib.ExtTie"], cwd=os.path.join(V, "lean"), capture_output=True, text=True, stdin=subprocess.DEVNULL)
+if b.returncode != 0:
+    print("NOT PINNED: Rngs/Lib/ExtTieShapes.lean (generated from the pinned sources) does not build:\n" + (b.stdout + b.stderr)[-2000:])
+    sys.exit(1)
 r = exttie.run(P)
 bad = [k for k, v in r["theorems"].items() if not v["ok"]]
 if bad:
